@@ -1,0 +1,14 @@
+//go:build verif
+
+package genql
+
+// VerifHook is set by the verification harness (before any goroutine starts)
+// to observe or perturb scheduling at the marked places. Only compiled with
+// the `verif` build tag.
+var VerifHook func(site string)
+
+func verifPoint(site string) {
+	if h := VerifHook; h != nil {
+		h(site)
+	}
+}
